@@ -33,15 +33,21 @@ PY = sys.executable
 
 TIERS = {
     "quick": {"budget": 25, "nb_cap": 10**6, "variants": 3, "hang": 900},
-    "thorough": {"budget": 600, "nb_cap": 10**6, "variants": 4, "hang": 4000},
+    "thorough": {"budget": 600, "nb_cap": 10**6, "variants": 4, "hang": 4000, "strided_njit": True},
 }
+
+
+STRIDED_NJIT = [False]
 
 
 def variant_env(v):
     env = dict(os.environ)
+    if STRIDED_NJIT[0]:
+        env["C14_STRIDED_NJIT"] = "1"
     env["NUMBA_BOUNDSCHECK"] = "1"
     env["PYTHONHASHSEED"] = "0"
-    env["NUMBA_NUM_THREADS"] = "4"
+    env["NUMBA_NUM_THREADS"] = "2"
+    env["OMP_WAIT_POLICY"] = "PASSIVE"  # 27+ processes share 16 cores: never spin-wait
     env["PYTHONPATH"] = VERIF + os.pathsep + env.get("PYTHONPATH", "")
     env.pop("MALLOC_PERTURB_", None)
     if v != "unset":
@@ -217,6 +223,7 @@ def main():
     conf = dict(TIERS[tier])
     if args.budget:
         conf["budget"] = args.budget
+    STRIDED_NJIT[0] = bool(conf.get("strided_njit"))
     t0 = time.monotonic()
     print(f"C14 check: tier={tier} VERIF_SEED={seed} repo={repo} nproc={args.nproc}")
     sys.stdout.flush()
@@ -346,6 +353,8 @@ def report(seed, tier, conf, variants, done, errors, wall, repo, write_ev=True):
             "faults_fired": {
                 "out-poison (dirty caller buffers handed to gufuncs)": dirty,
                 "buffer-reuse (buffers recycled from the pool)": reused,
+                "strided-view (gufunc calls into every-other-element output views with canary gaps)": sum(d.get("buffers_strided", 0) for d in done.values()),
+                "guard-band (output buffers carved out of canary-filled allocations, checked after every call)": dirty,
                 "malloc-perturb (processes whose probe saw non-zero fresh memory)": sum(1 for (g, v), ok in perturb_ok.items() if ok and v != "unset"),
                 "history re-issue of an earlier call": repeats,
                 "assertions-on (NUMBA_BOUNDSCHECK=1 processes)": len(done),
